@@ -40,7 +40,7 @@ RULE = ("cases = operation x call form x operands from: word-count classes {0,1,
         "2^k+-1, trailing zero words, top word 1/MAX, sparse) x signs; gcd pairs incl. zero/equal/multiple/shared factor/Fibonacci/huge "
         "quotient; radicands 0,1,r^n,r^n+-1 for n in {1,2,3,4,5,7,bits-1,bits,bits+1,bits/3+1,huge}; (x,base) with x = base^e,+-1 for bases "
         "2,2^k,3,10,word,dword,multi-word; log2_bounds of integers, every primitive type (EVERY u8/u16 value exhaustively), f32/f64 "
-        "patterns, FBig in bases 2..36, rationals; remove with planted exponents 0..70; every case in the std and the no_std build of "
+        "patterns (plus an arithmetic progression through all 2^32 f32 patterns: stride 1048583 quick, 8191 thorough), FBig in bases 2..36, rationals; remove with planted exponents 0..70; every case in the std and the no_std build of "
         "dashu-base, answers must agree except the f32 bounds. Non-trivial = a certificate / bracket decision was evaluated on a "
         "non-degenerate input. asis=same|diff: the implementation answer equals the extracted as-is model (nth_root, cbrt, remove, "
         "primitive gcd/gcd_ext incl. cofactors, sqrt_rem shift algebra, ilog shortcuts, no_std table bounds).")
